@@ -610,6 +610,7 @@ where
     }
     space_desc.push(("obstacles", J::Arr(obs_desc)));
     space_desc.push(("problems", J::Arr(pdesc)));
+    let preconds_c04 = !classes.iter().any(|c| c == "goal_outside_bounds");
     Scenario {
         family: family.into(),
         space: Arc::new(LogSpace::new(space)),
@@ -620,7 +621,7 @@ where
         desc: J::obj(space_desc),
         real_metric: true,
         classes,
-        preconds_c04: true,
+        preconds_c04,
         timeout_ms,
         keep_seed: false,
         trace: None,
@@ -643,13 +644,22 @@ pub fn build_rv(r: &mut Sm, o: &GenOpts) -> Scenario<RealVectorState, RealVector
     let extent = space.get_maximum_extent();
     let coords: Arc<dyn Fn(&RealVectorState) -> Vec<f64>> = Arc::new(|s| s.values.clone());
     let mk: Arc<dyn Fn(&mut Sm) -> RealVectorState> =
-        Arc::new(move |r| RealVectorState::new((0..dim).map(|_| r.range(lo + 0.2, hi - 0.2)).collect()));
+        Arc::new(move |r| RealVectorState::new((0..dim).map(|_| if r.chance(0.1) { hi - 0.05 } else { r.range(lo + 0.2, hi - 0.2) }).collect()));
+    // in 30% of the worlds the goal region sticks out of the box: goal samples are not clamped into the bounds
+    // (C04 is then vacuous: its premise "every goal sample lies within the bounds" fails)
+    let sticks_out = r.chance(0.3);
+    if sticks_out {
+        rv_classes.push("goal_outside_bounds".to_string());
+    }
     let near: Arc<dyn Fn(&RealVectorState, f64, &[u64]) -> RealVectorState> = Arc::new(move |t, rad, d| {
         RealVectorState::new(
             t.values
                 .iter()
                 .enumerate()
-                .map(|(i, x)| (x + rad * 0.5 * (2.0 * u01(d[i % 3]) - 1.0)).clamp(lo, hi))
+                .map(|(i, x)| {
+                    let v = x + rad * 0.5 * (2.0 * u01(d[i % 3]) - 1.0);
+                    if sticks_out { v } else { v.clamp(lo, hi) }
+                })
                 .collect(),
         )
     });
@@ -693,9 +703,16 @@ pub fn build_so2(r: &mut Sm, o: &GenOpts) -> Scenario<SO2State, SO2StateSpace> {
     let (blo, bhi) = space.bounds;
     let coords: Arc<dyn Fn(&SO2State) -> Vec<f64>> = Arc::new(|s| vec![s.value]);
     let mk: Arc<dyn Fn(&mut Sm) -> SO2State> =
-        Arc::new(move |r| SO2State::new(r.range(blo + 0.02, bhi - 0.02)));
+        Arc::new(move |r| {
+            let v = r.range(blo + 0.02, bhi - 0.02);
+            // one state in ten is stored un-normalised through the public field (the same configuration + 2k PI)
+            if r.chance(0.1) { SO2State { value: v + 2.0 * PI * *r.pick(&[-2.0, 2.0, 3.0]) } } else { SO2State::new(v) }
+        });
     let near: Arc<dyn Fn(&SO2State, f64, &[u64]) -> SO2State> = Arc::new(move |t, rad, d| {
-        let v = (t.value + rad * 0.9 * (2.0 * u01(d[0]) - 1.0)).clamp(blo, bhi);
+        // (the target may be stored un-normalised: sample around its canonical value, else the sample would not be
+        // in the goal region and the goal sampler would be unsound)
+        let tv = SO2State::new(t.value).value;
+        let v = (tv + rad * 0.9 * (2.0 * u01(d[0]) - 1.0)).clamp(blo, bhi);
         SO2State::new(v.clamp(-PI, PI - 1e-9))
     });
     real_world(
@@ -743,7 +760,9 @@ fn quat_near(t: &SO3State, rad: f64, d: &[u64]) -> SO3State {
     let z = qw * t.z + qx * t.y - qy * t.x + qz * t.w;
     let w = qw * t.w - qx * t.x - qy * t.y - qz * t.z;
     let m = (x * x + y * y + z * z + w * w).sqrt();
-    SO3State::new(x / m, y / m, z / m, w / m)
+    // the same rotation has two quaternions: hand out either sign
+    let sg = if d[2] & 0x100 != 0 { -1.0 } else { 1.0 };
+    SO3State::new(sg * x / m, sg * y / m, sg * z / m, sg * w / m)
 }
 
 pub fn build_so3(r: &mut Sm, o: &GenOpts) -> Scenario<SO3State, SO3StateSpace> {
@@ -986,7 +1005,7 @@ where
             l.push(c - w / 2.0);
             h.push(c + w / 2.0);
         }
-        Some((r.pick(&["raise", "none", "nonbool", "str", "tuple", "int1", "float", "obj", "zero", "empty", "npbool"]).to_string(), BoxObs { lo: l, hi: h }))
+        Some((r.pick(&["raise", "none", "nonbool", "str", "tuple", "int1", "float", "obj", "zero", "empty", "npbool", "raise_kbd", "raise_base", "raise_sysexit"]).to_string(), BoxObs { lo: l, hi: h }))
     } else {
         None
     };
